@@ -1,13 +1,14 @@
 #!/usr/bin/env python3
 """Import the deliverables of a mutant sub-agent (/tmp/mut/mNN/_out: A.diff, B.diff, demo_A.py, demo_B.py, meta.json)
-as seeded/<Cxx>-A and seeded/<Cxx>-B.  usage: tools/import_mutants.py C15 /tmp/mut/m15/_out [suffixes, default A,B]"""
+as seeded/<Cxx>-A and seeded/<Cxx>-B.  usage: tools/import_mutants.py C15 /tmp/mut/m15/_out [A,B | A:C,B:D (source:target suffix)]"""
 import json, shutil, sys
 from pathlib import Path
 ROOT = Path(__file__).resolve().parent.parent
 pid, out = sys.argv[1], Path(sys.argv[2])
 meta = json.loads((out / "meta.json").read_text())
-for k in (sys.argv[3].split(",") if len(sys.argv) > 3 else ["A", "B"]):
-    d = ROOT / "seeded" / f"{pid}-{k}"
+for kk in (sys.argv[3].split(",") if len(sys.argv) > 3 else ["A", "B"]):
+    k, tgt = (kk.split(":") + [kk])[:2] if ":" in kk else (kk, kk)
+    d = ROOT / "seeded" / f"{pid}-{tgt}"
     d.mkdir(parents=True, exist_ok=True)
     shutil.copy(out / f"{k}.diff", d / "patch.diff")
     shutil.copy(out / f"demo_{k}.py", d / "demo.py")
